@@ -13,6 +13,9 @@ package main
 // only steers the budget, the verdict comes from the Lean model.
 
 import (
+	"bytes"
+	"compress/gzip"
+	"compress/zlib"
 	"fmt"
 	"sort"
 	"strings"
@@ -1208,6 +1211,49 @@ var fuzzHeaders = []string{"", "host: verif.test", "host: verif.test\r\ncontent-
 	" leading-space: v", "a: b\r\n continuation", "a\x00b: c", strings.Repeat("h: v\r\n", 200), "x-lunar-sequence-id: 1", "content-length: -5",
 	"retry-after: never", "x-quota: NaN\r\nx-reset: -1"}
 
+func gzipOf(s string) string {
+	var b bytes.Buffer
+	w := gzip.NewWriter(&b)
+	w.Write([]byte(s))
+	w.Close()
+	return b.String()
+}
+
+func zlibOf(s string) string {
+	var b bytes.Buffer
+	w := zlib.NewWriter(&b)
+	w.Write([]byte(s))
+	w.Close()
+	return b.String()
+}
+
+// encodedBody: a body for a transaction whose headers announce a content encoding: correctly compressed, cut at
+// every offset of the compression header (and a few later ones), not compressed at all, or garbage.
+func encodedBody(r *prng.R) string {
+	plain := prng.Pick(r, []string{"{\"a\":1}", "{\"model\":\"m\",\"email\":\"a@b.co\"}", "plain text", "{"})
+	gz, zl := gzipOf(plain), zlibOf(plain)
+	switch r.Intn(7) {
+	case 0:
+		return gz
+	case 1:
+		return gz[:r.Intn(len(gz))] // cut anywhere, often inside the 10-byte header
+	case 2:
+		return gz[:r.Intn(12)]
+	case 3:
+		return zl
+	case 4:
+		return zl[:r.Intn(len(zl))]
+	case 5:
+		return plain
+	}
+	return prng.Pick(r, []string{"\x1f", "\x1f\x8b", "\x1f\x8b\x08", "\x1f\x8b\x08\x00\x00", "\x78", "\x78\x9c", "\x00", "\xff\xff\xff\xff\xff\xff\xff\xff\xff\xff\xff"})
+}
+
+var encodings = []string{"gzip", "deflate", "br", "identity", "zstd", "GZIP", "Gzip", "gzip, deflate", " gzip ", "x-gzip", "%e"}
+
+// wellFormed: a header block the way HAProxy dumps it — every line, the last one included, ends with CRLF
+func wellFormed(lines ...string) string { return strings.Join(lines, "\r\n") + "\r\n" }
+
 func rawTxn(r *prng.R, heavy bool) string {
 	dir := "req"
 	if r.Chance(35) {
@@ -1223,6 +1269,18 @@ func rawTxn(r *prng.R, heavy bool) string {
 	}
 	if heavy || r.Chance(50) {
 		hdr = prng.Pick(r, fuzzHeaders)
+		if r.Chance(50) && hdr != "" {
+			hdr = wellFormed(strings.Split(hdr, "\r\n")...) // a properly terminated block is really parsed
+		}
+	}
+	if r.Chance(30) { // a content encoding announced over a compressed / truncated / plain body
+		key := prng.Pick(r, []string{"content-encoding", "Content-Encoding", "CONTENT-ENCODING"})
+		enc := prng.Pick(r, encodings)
+		if enc == "%e" {
+			enc = ""
+		}
+		hdr = wellFormed("host: verif.test", key+": "+enc, "content-type: application/json")
+		body = encodedBody(r)
 	}
 	path := "/x"
 	if i := strings.Index(url, "/"); i >= 0 {
@@ -1407,6 +1465,7 @@ func gen(r *prng.R, f proto.Flags, emit func(proto.Case)) {
 				emit(noDocCase(r.Fork(), next("n-"+d+"-"+k+"-"), d, k))
 			}
 		}
+		emit(noDocCase(r.Fork(), next("n-path_params-nullentry-"), "path_params", "nullentry"))
 	}
 	consts := []string{"a", "b"}
 	if thorough {
